@@ -1012,6 +1012,13 @@ postfixexpr(struct scope *s, struct expr *r)
 					*end = exprpromote(*end);
 				else
 					*end = exprassign(*end, p->type);
+				/*
+				array lengths in a variably modified parameter type
+				belong to the callee's prototype scope and cannot be
+				evaluated here; all pointers are passed the same way
+				*/
+				if ((*end)->kind == EXPRCAST && (*end)->type->kind == TYPEPOINTER && (*end)->type->prop & PROPVM)
+					(*end)->type = mkpointertype(&typevoid, QUALNONE);
 				end = &(*end)->next;
 				++e->u.call.nargs;
 				if (p)
